@@ -294,11 +294,12 @@ def ebpps(facts):
                 j += 1
     S = "datasketches::ebpps_sample"
     fn = _fn(fs, S, "move_one_to_partial")
+    RI = random_index_names(fs)
     if fn is not None:
         calls = []
-        walk(fn["body"], lambda x: calls.append(x) if x.get("k") == "Call" and x.get("cname") == "random_idx" else None)
+        walk(fn["body"], lambda x: calls.append(x) if x.get("k") == "Call" and x.get("cname") in RI else None)
         decls = local_decls(fn)
-        rnd = [v for v in decls.values() if v.get("init") is not None and "random_idx" in txt(v["init"])]
+        rnd = [v for v in decls.values() if v.get("init") is not None and any((r + "(") in txt(v["init"]) for r in RI)]
         used = False
         if rnd:
             refs = []
@@ -315,6 +316,32 @@ def ebpps(facts):
         ok = ok and any(("include_partial=" + C("(next_double()<c_frac)")) in x for x in t)
         out.append(ob("ebpps.sample", "ebpps_sample::get_sample:assembly", fn["pat"], "discharged" if ok else "violated", "the sample is every full item plus the partial item with probability frac(c): floor(c) or ceil(c) items, all from the input" if ok else "sample assembly changed: %s" % t, fn["qname"]))
     return out
+
+
+_RIDX = {}
+
+
+def random_index_names(fns):
+    """names of the helpers that draw a uniform index below their single argument (random_idx, next_int in the reviewed tree),
+    recognised by what they do: one integral parameter, the shared engine random_utils::rand, a uniform_int_distribution"""
+    k = id(fns)
+    if k not in _RIDX:
+        names = set()
+        for f in fns.values():
+            if f.get("body") is None or len(f.get("params") or []) != 1:
+                continue
+            eng, dist = [False], [False]
+
+            def v(n):
+                if n.get("k") in ("Ref", "Member") and (n.get("q") or "").endswith("random_utils::rand"):
+                    eng[0] = True
+                if "uniform_int_distribution" in (n.get("t") or "") or "uniform_int_distribution" in (n.get("crec") or "") or "uniform_int_distribution" in (n.get("callee") or ""):
+                    dist[0] = True
+            walk(f["body"], v)
+            if eng[0] and dist[0]:
+                names.add(f["name"])
+        _RIDX[k] = tuple(sorted(names | {"random_idx", "next_int"}))
+    return _RIDX[k]
 
 
 def partial_shuffle(facts):
@@ -335,7 +362,7 @@ def partial_shuffle(facts):
         idx = [0]
 
         def v(n, ps):
-            if not (n.get("k") == "Call" and (n.get("cname") or "") in ("random_idx", "next_int") and len(n.get("args", [])) == 1):
+            if not (n.get("k") == "Call" and (n.get("cname") or "") in random_index_names(fns) and len(n.get("args", [])) == 1):
                 return
             a = strip_all(n["args"][0])
             hops = 0
